@@ -104,9 +104,43 @@ contained — whatever else was stored on the object while loading. -/
 theorem C14_kwargs (txAttrs assigned extras : List String) (contained : Bool) (hn : txAttrs.Nodup)
     (hp : "parent" ∉ txAttrs) (hpos : "_tx_position" ∉ txAttrs) (hend : "_tx_position_end" ∉ txAttrs)
     (ha : ∀ k, k ∈ assigned → k ∈ txAttrs) (he : ∀ k, k ∈ extras → k ∉ txAttrs ∧ k ≠ "parent") :
-    Kw.kwargs txAttrs (Kw.collected txAttrs assigned contained extras) =
+    Kw.kwargs txAttrs contained (Kw.collected txAttrs assigned contained extras) =
       txAttrs ++ (if contained then ["parent"] else []) :=
   Kw.kwargs_exact txAttrs assigned extras contained hn hp hpos hend ha he
+
+/-- **Exactly the grammar attributes, whatever user code did to the object meanwhile.**
+While a model is built, user code (pre-resolution callback, scope providers, model processors of
+imported files, constructors of other objects) may store any attribute on an object whose
+constructor is still postponed (any name: unknown to the grammar, an attribute of another rule, a
+`_tx_` name, a grammar attribute of the object again, even `parent` on the root object) and delete
+again (anything but what the constructor is owed: grammar attributes, `parent` of a contained
+object), in any order and any number of times: `__init__` still receives the rule's attributes in grammar order, and `parent` iff
+the object is contained. -/
+theorem C14_kwargs_ops (txAttrs assigned extras : List String) (contained : Bool) (ops : List Kw.Op)
+    (hn : txAttrs.Nodup) (hp : "parent" ∉ txAttrs) (hpos : "_tx_position" ∉ txAttrs)
+    (hend : "_tx_position_end" ∉ txAttrs) (ha : ∀ k, k ∈ assigned → k ∈ txAttrs)
+    (he : ∀ k, k ∈ extras → k ∉ txAttrs ∧ k ≠ "parent")
+    (ho : ∀ o, o ∈ ops → o.harmless txAttrs contained) :
+    Kw.kwargs txAttrs contained (Kw.collectedOps txAttrs assigned contained extras ops) =
+      txAttrs ++ (if contained then ["parent"] else []) :=
+  Kw.kwargs_ops txAttrs contained ops _ (C14_kwargs txAttrs assigned extras contained hn hp hpos hend ha he) ho
+
+/-- The filter of the pinned code (`k == "parent"` without asking whether the object is contained)
+passed a `parent` that user code had stored on the root object on to its constructor; the repaired
+filter does not. -/
+theorem C14_kwargs_pinned_false :
+    Kw.kwargsPinned ["name"] (Kw.collectedOps ["name"] ["name"] false [] [.set "parent"]) ≠ ["name"] ∧
+      Kw.kwargs ["name"] false (Kw.collectedOps ["name"] ["name"] false [] [.set "parent"]) = ["name"] := by decide
+
+/-- non-vacuity: a contained `Item` (attributes `name`, `val`) on which a scope provider stored
+`use_count`, a callback overwrote `val`, stored and deleted `tmp` and stored `target` (an attribute
+of another rule) -/
+example : Kw.kwargs ["name", "val"] true (Kw.collectedOps ["name", "val"] ["name"] true ["_tx_filename"]
+    [.set "use_count", .set "val", .set "tmp", .del "tmp", .set "target", .del "missing"]) =
+    ["name", "val", "parent"] := by decide
+example : Kw.collectedOps ["name", "val"] ["name"] true ["_tx_filename"]
+    [.set "use_count", .set "val", .set "tmp", .del "tmp", .set "target"] =
+    ["name", "val", "_tx_position", "_tx_position_end", "parent", "_tx_filename", "use_count", "target"] := by decide
 
 /-- The bookkeeping of the pinned code was not balanced: a parser that gives back a
 count it never took (failing nested load), or never gives back the one it took
